@@ -441,6 +441,10 @@ def is_instance(value: Any, type_: Any) -> bool:
     has been called.
     """
 
+    if is_new_type(type_):
+        # NewType may be nested in a complex type (top level ones are unwrapped early)
+        type_ = unwrap_newtype(type_)
+
     # We do not want Python implicit isinstance(True, int) == True
     if type_ is int and (value is True or value is False):
         return False
